@@ -19,7 +19,7 @@ use std::process::Command;
 
 const TESTDATA: &str = "/repo/resources/testdata";
 
-/// Candidate sources; those that do not build offline are reported with `(status skip)`.
+/// Fixture sources (all build offline); the generated sources follow them in the case numbering.
 const SOURCES: &[&str] = &[
     "wght_var.designspace",
     "static.designspace",
@@ -49,13 +49,166 @@ const SOURCES: &[&str] = &[
 
 const THREADS: &[usize] = &[2, 4, 1, 8, 3, 16, 5, 2];
 
-/// a directed schedule: IR glyph completion messages arrive 25 ms after the counters were decremented,
-/// the GlyphOrder worker decrements its counter 60 ms after it finished executing
-const LAG_SCHEDULE: &str = "send:IrGlyph:25,post:IrGlyphOrder:60";
+/// build options of one source
+#[derive(Clone, Default)]
+struct Bo {
+    flags_off: u32,
+    skip_features: bool,
+}
+
+/// Directed schedules (`FONTC_VERIF_DELAY`), by run number; `None` = undisturbed / jitter only.
+///  * lag:      IR glyph completion messages arrive 25 ms after the counters were decremented, the GlyphOrder worker
+///              decrements its counter 60 ms after it finished executing (the schedule that exposed F-C02-1);
+///  * slowgo:   GlyphOrder starts 40 ms late and lingers 40 ms: every back-end glyph job whose access does not name
+///              GlyphOrder is launchable (and runs) before GlyphOrder finishes;
+///  * latemsg:  the completion messages of the jobs whose success spawns work (GlyphOrder, KerningLocations,
+///              GatherIrKerning) and of the IR glyph jobs arrive 30 ms late.
+const SCHEDULES: &[(&str, Option<&str>, bool)] = &[
+    ("none", None, false),
+    ("lag", Some("send:IrGlyph:25,post:IrGlyphOrder:60"), false),
+    ("none", None, true),
+    ("slowgo", Some("pre:IrGlyphOrder:40,post:IrGlyphOrder:40"), false),
+    ("latemsg", Some("send:IrGlyphOrder:30,send:IrKerningLocations:30,send:BeGatherIr:30,send:IrGlyph:30"), true),
+];
+
+// ------------------------------------------------------------------ generated sources
+use crate::e2e::design::{AxisDef, Comp, Design, GlyphDef, Master, Pt, PtType};
+
+/// number of generated sources per run (each is built under every schedule)
+const N_GEN: usize = 8;
+const PREFER_SIMPLE_GLYPHS: u32 = 0b100;
+
+fn square(x: f64, y: f64, w: f64) -> Vec<Pt> {
+    [(x, y), (x + w, y), (x + w, y + w), (x, y + w)].iter().map(|(x, y)| Pt { x: *x, y: *y, typ: PtType::Line }).collect()
+}
+
+fn comp(base: &str, dx: f64, dy: f64) -> Comp {
+    Comp { base: base.to_string(), t: [1.0, 0.0, 0.0, 1.0, dx, dy] }
+}
+
+/// An unusual-but-valid source. `g` selects which job-graph shapes it contains; the rng only varies details.
+/// Returns the design, its build options and the list of shape words (for the distribution tags).
+fn gen_source(g: usize, rng: &mut Rng) -> (Design, Bo, Vec<&'static str>) {
+    let variable = g % 2 == 1 || g == 6;
+    let dangling = matches!(g, 0 | 1 | 6 | 7);
+    let nonexport = matches!(g, 1 | 3 | 6 | 7);
+    let nested = matches!(g, 1 | 2 | 6 | 7);
+    let mixed = matches!(g, 2 | 3 | 6 | 7);
+    let simple_off = matches!(g, 3 | 6);
+    let kerning = matches!(g, 4 | 5 | 6 | 7);
+    let skip_features = matches!(g, 5 | 7);
+    let mut feats: Vec<&'static str> = vec![if variable { "variable" } else { "static" }];
+
+    let mut glyphs: std::collections::BTreeMap<String, GlyphDef> = Default::default();
+    let mut order: Vec<String> = vec![];
+    let add = |glyphs: &mut std::collections::BTreeMap<String, GlyphDef>, order: &mut Vec<String>, n: &str, gd: GlyphDef| {
+        glyphs.insert(n.to_string(), gd);
+        order.push(n.to_string());
+    };
+    let n_simple = 3 + rng.below(3);
+    let simple_names = ["a", "b", "c", "d", "e"];
+    for (i, n) in simple_names.iter().take(n_simple).enumerate() {
+        let w = 100.0 + 40.0 * i as f64 + rng.range(0, 30) as f64;
+        add(&mut glyphs, &mut order, n, GlyphDef { advance: 400.0 + 50.0 * i as f64, contours: vec![square(50.0 + 10.0 * i as f64, 0.0, w)], ..Default::default() });
+    }
+    add(&mut glyphs, &mut order, "space", GlyphDef { advance: 250.0, ..Default::default() });
+    let mut skip_export = vec![];
+    if dangling {
+        // every component is a dangling reference: fontc prunes them (with a warning) and the glyph ends up empty
+        add(&mut glyphs, &mut order, "dgl", GlyphDef { advance: 500.0, components: vec![comp("ghost.one", 10.0, 0.0), comp("ghost.two", 0.0, 20.0)], ..Default::default() });
+        add(&mut glyphs, &mut order, "dgl2", GlyphDef { advance: 510.0, components: vec![comp("ghost.one", 0.0, 0.0)], ..Default::default() });
+        // dangling and real components mixed
+        add(&mut glyphs, &mut order, "dmix", GlyphDef { advance: 520.0, components: vec![comp("ghost.one", 5.0, 5.0), comp("a", 30.0, 0.0), comp("b", 300.0, 10.0)], ..Default::default() });
+        feats.push("dangling-only");
+        feats.push("dangling-mixed");
+    }
+    if nonexport {
+        // a non-export glyph used as a component of exported composites
+        add(&mut glyphs, &mut order, "ne", GlyphDef { advance: 300.0, contours: vec![square(20.0, 20.0, 150.0)], ..Default::default() });
+        skip_export.push("ne".to_string());
+        add(&mut glyphs, &mut order, "cne", GlyphDef { advance: 600.0, components: vec![comp("ne", 0.0, 0.0), comp("b", 250.0, 0.0)], ..Default::default() });
+        add(&mut glyphs, &mut order, "cne2", GlyphDef { advance: 610.0, components: vec![comp("ne", 100.0, 100.0)], ..Default::default() });
+        feats.push("nonexport-component");
+    }
+    if nested {
+        // n4 -> n3 -> n2 -> n1 -> a
+        add(&mut glyphs, &mut order, "n1", GlyphDef { advance: 450.0, components: vec![comp("a", 10.0, 0.0)], ..Default::default() });
+        add(&mut glyphs, &mut order, "n2", GlyphDef { advance: 460.0, components: vec![comp("n1", 0.0, 10.0), comp("b", 200.0, 0.0)], ..Default::default() });
+        add(&mut glyphs, &mut order, "n3", GlyphDef { advance: 470.0, components: vec![comp("n2", 5.0, 5.0)], ..Default::default() });
+        add(&mut glyphs, &mut order, "n4", GlyphDef { advance: 480.0, components: vec![comp("n3", 0.0, 0.0), comp("c", 100.0, 300.0)], ..Default::default() });
+        if nonexport {
+            // and a nested chain through the non-export glyph
+            add(&mut glyphs, &mut order, "n5", GlyphDef { advance: 490.0, components: vec![comp("cne", 0.0, 0.0)], ..Default::default() });
+        }
+        feats.push("nested3");
+    }
+    if mixed {
+        add(&mut glyphs, &mut order, "mx", GlyphDef { advance: 530.0, contours: vec![square(0.0, 300.0, 120.0)], components: vec![comp("a", 150.0, 0.0)], ..Default::default() });
+        add(&mut glyphs, &mut order, "mx2", GlyphDef { advance: 540.0, contours: vec![square(10.0, 310.0, 100.0)], components: vec![comp("b", 0.0, 0.0), comp("c", 200.0, 0.0)], ..Default::default() });
+        feats.push("mixed-contour-component");
+        feats.push(if simple_off { "prefer-simple-off" } else { "prefer-simple-on" });
+    }
+    let (mut kern, mut groups) = (vec![], vec![]);
+    if kerning {
+        groups.push(("public.kern1.A".to_string(), vec!["a".to_string(), "b".to_string()]));
+        groups.push(("public.kern2.C".to_string(), vec!["b".to_string(), "c".to_string()]));
+        kern.push(("public.kern1.A".to_string(), "public.kern2.C".to_string(), -40.0 - rng.range(0, 20) as f64));
+        kern.push(("a".to_string(), "c".to_string(), -25.0));
+        kern.push(("c".to_string(), "public.kern2.C".to_string(), 15.0));
+        kern.push(("c".to_string(), "a".to_string(), -10.0 - rng.range(0, 5) as f64));
+        kern.push(("space".to_string(), "a".to_string(), 12.0));
+        feats.push("kerning-groups");
+    }
+    if skip_features {
+        feats.push("skip-features");
+    }
+
+    let mut d = Design { family: "Verif Sched".into(), upem: 1000, ..Default::default() };
+    let info: Vec<(String, f64)> = vec![("ascender".into(), 800.0), ("descender".into(), -200.0), ("xHeight".into(), 500.0), ("capHeight".into(), 700.0)];
+    let n_masters = if variable { 2 + (g == 6) as usize } else { 1 };
+    if variable {
+        d.axes.push(AxisDef { tag: "wght".into(), name: "Weight".into(), min: 400.0, default: 400.0, max: 900.0, map: vec![] });
+    }
+    for mi in 0..n_masters {
+        let shift = 30.0 * mi as f64;
+        let mut gl = glyphs.clone();
+        for gd in gl.values_mut() {
+            gd.advance += shift;
+            for c in gd.contours.iter_mut() {
+                for (k, p) in c.iter_mut().enumerate() {
+                    if k == 1 || k == 2 { p.x += shift; }
+                }
+            }
+            for c in gd.components.iter_mut() {
+                c.t[4] += shift / 2.0;
+            }
+        }
+        let loc = if variable { vec![[400.0, 900.0, 650.0][mi]] } else { vec![] };
+        d.masters.push(Master {
+            name: format!("M{mi}"),
+            style: if mi == 0 { "Regular".into() } else { format!("Style{mi}") },
+            loc,
+            glyphs: gl,
+            kerning: kern.iter().map(|(a, b, v)| (a.clone(), b.clone(), v - 5.0 * mi as f64)).collect(),
+            groups: groups.clone(),
+            info: info.clone(),
+            ..Default::default()
+        });
+    }
+    for (i, n) in order.iter().enumerate() {
+        if n != "ne" {
+            d.codepoints.insert(n.clone(), vec![if n == "space" { 0x20 } else { 0x61 + i as u32 }]);
+        }
+    }
+    d.glyph_order = Some(order);
+    d.skip_export = skip_export;
+    let bo = Bo { flags_off: if simple_off { PREFER_SIMPLE_GLYPHS } else { 0 }, skip_features };
+    (d, bo, feats)
+}
 
 // ------------------------------------------------------------------ child: one real build
 fn child(rest: &[String]) {
-    // rest = ["child", source, threads, jitter, delay-spec, tracefile]
+    // rest = ["child", source, threads, jitter, delay-spec, tracefile, flags_off, skip_features]
     let source = &rest[1];
     // SAFETY: single-threaded at this point
     unsafe {
@@ -72,15 +225,17 @@ fn child(rest: &[String]) {
         }
         std::env::set_var("FONTC_VERIF_TRACE", &rest[5]);
     }
-    let result = std::panic::catch_unwind(|| {
-        let input = fontc::Input::new(Path::new(source)).map_err(|e| format!("{e}"))?;
-        let src = input.create_source().map_err(|e| format!("{e}"))?;
-        fontc::generate_font(src, fontc::Options::default()).map_err(|e| format!("{e}"))
-    });
+    let opts = crate::e2e::build::BuildOpts {
+        flags: None,
+        flags_off: rest.get(6).and_then(|v| v.parse().ok()).unwrap_or(0),
+        skip_features: rest.get(7).map(|v| v == "1").unwrap_or(false),
+        ir_dir: None,
+    };
+    let result = crate::e2e::build::compile(Path::new(source), &opts);
     let out = std::io::stdout();
     let mut out = out.lock();
     match result {
-        Ok(Ok(bytes)) => {
+        Ok(bytes) => {
             // cheap content hash (FNV-1a 64) — enough to notice schedule-dependent output
             let mut h: u64 = 0xcbf29ce484222325;
             for b in &bytes {
@@ -88,15 +243,7 @@ fn child(rest: &[String]) {
             }
             writeln!(out, "ok {} {h:016x}", bytes.len()).unwrap();
         }
-        Ok(Err(e)) => writeln!(out, "err {}", S::str(&e).to_line()).unwrap(),
-        Err(p) => {
-            let msg = p
-                .downcast_ref::<String>()
-                .cloned()
-                .or_else(|| p.downcast_ref::<&str>().map(|s| s.to_string()))
-                .unwrap_or_default();
-            writeln!(out, "panic {}", S::str(&msg).to_line()).unwrap()
-        }
+        Err(e) => writeln!(out, "err {}", S::str(&e).to_line()).unwrap(),
     }
 }
 
@@ -440,8 +587,9 @@ struct RunOut {
     log: String,
 }
 
-fn run_child(source: &Path, threads: usize, jitter: Option<u64>, delay: Option<&str>, tag: &str) -> RunOut {
-    let exe = std::env::current_exe().expect("current_exe");
+fn run_child(source: &Path, threads: usize, jitter: Option<u64>, delay: Option<&str>, bo: &Bo, tag: &str) -> RunOut {
+    // the same per-property binary, whatever its path is now
+    let exe = PathBuf::from("/proc/self/exe");
     let dir = PathBuf::from("/verif/build/run/C02");
     let _ = std::fs::create_dir_all(&dir);
     let trace = dir.join(format!("trace-{}-{}.log", std::process::id(), tag));
@@ -457,6 +605,8 @@ fn run_child(source: &Path, threads: usize, jitter: Option<u64>, delay: Option<&
             .arg(jitter.map(|j| j.to_string()).unwrap_or_else(|| "-".into()))
             .arg(delay.unwrap_or("-"))
             .arg(&trace)
+            .arg(bo.flags_off.to_string())
+            .arg(if bo.skip_features { "1" } else { "0" })
             .env_remove("RUST_LOG")
             .env("SOURCE_DATE_EPOCH", "1700000000")
             .output();
@@ -478,30 +628,54 @@ fn run_child(source: &Path, threads: usize, jitter: Option<u64>, delay: Option<&
 }
 
 fn case(seed: u64, i: usize) -> Vec<S> {
-    let src_rel = SOURCES[i % SOURCES.len()];
-    let run = i / SOURCES.len();
+    let n_sources = SOURCES.len() + N_GEN;
+    let si = i % n_sources;
+    let run = i / n_sources;
     let mut rng = Rng::for_case(seed, "c02", i);
     let threads = THREADS[run % THREADS.len()];
-    // run 0 of every source is the undisturbed schedule, run 1 a directed one (completion messages of the IR glyph
-    // jobs lag behind their counter decrement, GlyphOrder's worker lingers after exec), all others are jittered
-    let jitter = if run <= 1 { None } else { Some(rng.next() % 1_000_000) };
-    let delay = if run == 1 { Some(LAG_SCHEDULE) } else { None };
-    let source = Path::new(TESTDATA).join(src_rel);
+    // run 0 of every source is the undisturbed schedule, runs 1, 3, 4 are directed ones, run 2 and all runs >= 5 are jittered
+    let (sched_name, delay, with_jitter) = if run < SCHEDULES.len() { SCHEDULES[run] } else { ("none", None, true) };
+    let jitter = if with_jitter { Some(rng.next() % 1_000_000) } else { None };
+    // the source: a fixture, or a generated design (the same one for every schedule of this seed)
+    let mut _tmp = None;
+    let (src_name, source, bo, feats): (String, PathBuf, Bo, Vec<&'static str>) = if si < SOURCES.len() {
+        (SOURCES[si].to_string(), Path::new(TESTDATA).join(SOURCES[si]), Bo::default(), vec!["fixture"])
+    } else {
+        let g = si - SOURCES.len();
+        let mut grng = Rng::for_case(seed, "c02gen", g);
+        let (d, bo, mut feats) = gen_source(g, &mut grng);
+        let dir = crate::e2e::build::tmpdir("c02-");
+        let mut path = crate::e2e::write::write_design(dir.path(), &d);
+        if d.axes.is_empty() {
+            // a static source is its single UFO (lib keys such as public.skipExportGlyphs are read from it)
+            path = dir.path().join(crate::e2e::write::ufo_name(&d, 0));
+        } else if !d.skip_export.is_empty() {
+            // for a designspace fontc reads public.skipExportGlyphs from the designspace lib
+            let xml = std::fs::read_to_string(&path).unwrap();
+            let names: String = d.skip_export.iter().map(|n| format!("<string>{n}</string>")).collect();
+            let lib = format!("  <lib><dict><key>public.skipExportGlyphs</key><array>{names}</array></dict></lib>\n</designspace>");
+            std::fs::write(&path, xml.replace("</designspace>", &lib)).unwrap();
+        }
+        _tmp = Some(dir);
+        feats.push("generated");
+        (format!("gen{g}"), path, bo, feats)
+    };
     let mut fields = vec![
-        S::k1("source", S::str(src_rel)),
+        S::k1("source", S::str(&src_name)),
         S::k1("threads", S::usize(threads)),
         S::k1("jitter", jitter.map(|j| S::int(j as i128)).unwrap_or(S::atom("none"))),
-        S::k1("delay", S::atom(if delay.is_some() { "lag" } else { "none" })),
+        S::k1("delay", S::atom(sched_name)),
+        S::kv("feats", feats.iter().map(|f| S::atom(*f))),
     ];
     if !source.exists() {
         fields.push(S::k1("status", S::atom("missing")));
         return fields;
     }
-    let out = run_child(&source, threads, jitter, delay, &format!("{i}"));
+    let out = run_child(&source, threads, jitter, delay, &bo, &format!("{i}"));
     let st: Vec<&str> = out.status.split(' ').collect();
     let ex = extract(&out.log);
     // reference run (other thread count, no jitter) to see whether the script depends on the schedule
-    let reference = run_child(&source, if threads == 2 { 4 } else { 2 }, None, None, &format!("{i}r"));
+    let reference = run_child(&source, if threads == 2 { 4 } else { 2 }, None, None, &bo, &format!("{i}r"));
     let rex = extract(&reference.log);
     let script_cmp = if ex.canon == rex.canon {
         S::k1("scriptcmp", S::atom("same"))
